@@ -25,6 +25,8 @@ pub struct GenCfg {
     pub multi_plugin_assignments: bool,
     /// tests may carry parameters with default values named like fixtures
     pub defaulted_params: bool,
+    /// aliased fixtures may be implemented by functions named `test_*`
+    pub test_named_fixtures: bool,
 }
 
 impl Default for GenCfg {
@@ -44,6 +46,7 @@ impl Default for GenCfg {
             self_dep_bias: 1,
             multi_plugin_assignments: false,
             defaulted_params: false,
+            test_named_fixtures: false,
         }
     }
 }
@@ -75,7 +78,7 @@ fn names_vec(cfg: &GenCfg, max: usize) -> impl Strategy<Value = Vec<usize>> {
 fn fixture(cfg: &GenCfg) -> impl Strategy<Value = FixtureSpec> {
     (
         name_idx(cfg),
-        prop_oneof![8 => Just(None), 2 => (0u8..3).prop_map(Some)],
+        if cfg.test_named_fixtures { prop_oneof![7 => Just(None), 2 => (0u8..3).prop_map(Some), 2 => (3u8..5).prop_map(Some)].boxed() } else { prop_oneof![8 => Just(None), 2 => (0u8..3).prop_map(Some)].boxed() },
         names_vec(cfg, 2),
         prop_oneof![5 => Just(0u8), 1 => Just(1u8), 2 => Just(2u8), 1 => Just(3u8), 2 => Just(4u8)],
         prop_oneof![6 => Just(false), 1 => Just(true)],
